@@ -532,8 +532,52 @@ FIXTURES = {
 }
 
 
+def r19_3(ctx):
+    """"does this address lie in that buffer" is decided as data <= p < data + used
+    everywhere (the first byte of a buffer belongs to it: a pointer to offset 0 must
+    be fixed up when the buffer moves and must convert to a reference)"""
+    from .C14 import canon
+    prog = ctx.prog
+    n = 0
+    for f in prog.fns():
+        if f.file != 'libyara/arena.c' and not ctx.fixture:
+            continue
+        k = 0
+        for a in f.all_nodes():
+            if a['k'] != 'bin' or a['op'] != '&&':
+                continue
+            l, r = cu.strip_casts(f, f.kid(a, 0)), cu.strip_casts(f, f.kid(a, 1))
+            if l is None or r is None or l['k'] != 'bin' or r['k'] != 'bin':
+                continue
+            if l['op'] not in ('>', '>=', '<', '<=') or r['op'] not in ('>', '>=', '<', '<='):
+                continue
+            xl, bl = canon(f, f.kid(l, 0)), canon(f, f.kid(l, 1))
+            xr, br = canon(f, f.kid(r, 0)), canon(f, f.kid(r, 1))
+            if xl != xr:
+                continue
+            lo, hi = (l, r) if bl.endswith('data') or bl.endswith('.data') else (r, l)
+            base = canon(f, f.kid(lo, 1))
+            top = canon(f, f.kid(hi, 1))
+            if not base.endswith('data') or not top.startswith('(' + base + ' + ') or \
+                    not (top.endswith('used)') or top.endswith('size)')):
+                continue
+            n += 1
+            ok = lo['op'] == '>=' and hi['op'] == '<'
+            ctx.ob('R19.3', '%s:membership%d:half-open' % (f.name, k), ok, f.loc(a),
+                   '%s <= %s < %s' % (base, xl, top) if ok else
+                   'buffer membership is tested as %s %s %s && %s %s %s: %s' % (
+                       xl, lo['op'], base, xl, hi['op'], top,
+                       'a pointer to the first byte of the buffer is treated as foreign (not fixed up '
+                       'when the buffer moves / not convertible to a reference)' if lo['op'] == '>' else
+                       'the address one past the used part is treated as inside'))
+            k += 1
+    ctx.count('buffer_membership_tests', n)
+
+
 def run(ctx):
     r19_1(ctx)
     ctx.floor('R19.1', 35)
     r19_2(ctx)
     ctx.floor('R19.2', 10)
+    r19_3(ctx)
+    ctx.floor('R19.3', 2)
